@@ -11,7 +11,7 @@ class _RL(dict):
 UNIT_RLIMIT = _RL({"div_small": 80, "mul_redc": 80})      # unit -> --rlimit (Verus default is 10; 5x head-room over the measured maximum)
 UNIT_TIMEOUT = {"knuth": 1500, "addmul": 900, "mul_redc": 1200}     # unit -> seconds
 UNIT_EXPECT = {       # unit -> minimum number of verified functions on the unchanged tree (vacuity guard)
-    "core": 31, "add": 29, "kernels": 79, "addmul": 71, "addmul_n": 73, "mul": 51, "divd": 45, "div_small": 235, "knuth": 145, "mul_redc": 126, "basics": 22, "pow": 38, "divw": 54, "modular": 70, "spigot": 44, "gcd": 24, "forward": 57, "invring": 47, "bitlen": 81, "shifts": 131, "recip_table": 2, "gcdext": 67, "gcdw": 36, "bits": 78, "conv": 44, "lehmer": 38, "jebelean": 92, "logs": 27, "forward_shift": 81, "fmt_consts": 5, "rotate": 27, "popcount": 29, "conv_slice": 54, "conv_prim": 53, "absdiff": 15, "frombase": 71,
+    "core": 31, "add": 29, "kernels": 79, "addmul": 71, "addmul_n": 73, "mul": 51, "divd": 45, "div_small": 235, "knuth": 145, "mul_redc": 126, "basics": 22, "pow": 38, "divw": 54, "modular": 70, "spigot": 44, "gcd": 24, "forward": 57, "invring": 47, "bitlen": 81, "shifts": 131, "recip_table": 2, "gcdext": 67, "gcdw": 36, "bits": 78, "conv": 44, "lehmer": 38, "jebelean": 92, "logs": 27, "forward_shift": 81, "fmt_consts": 5, "rotate": 27, "popcount": 29, "conv_slice": 54, "conv_prim": 53, "absdiff": 15, "frombase": 71, "byteslice": 66,
 }
 
 COMMON_TRUST = [
@@ -194,15 +194,19 @@ PROPS = {
     ),
     "C08": dict(
         level="other",
-        level_text="Kani proves, per width, that every byte encoder emits exactly the base-256 digits in the stated order and length (fixed, vector, borrowed, trimmed, copy-into-buffer incl. frame), "
-                   "that try_from_le/be_slice accept exactly the byte strings of length <= BYTES denoting a value < 2^BITS (all strings up to BYTES+8 bytes, never panicking), and the round trips",
-        level_note="per-width only (12 widths incl. 60, 63 and 72 where BYTES%8 and BITS%64 disagree); the code is raw-pointer slices, outside Verus; byte strings longer than BYTES+8 take the loop-free length exit",
-        technique="Kani contract harnesses on the compiled crate (bit-precise for the unsafe pointer casts), complete per width",
-        units=[],
+        level_text="Verus proves for ALL widths and byte strings of ANY length the two decoders everything byte-oriented funnels into, try_from_le_slice and try_from_be_slice (unit byteslice): Some(v) exactly when the string is at most "
+                   "BYTES = ceil(BITS/8) long and its base-256 value (le: first byte least significant; be: last byte least significant) is < 2^BITS, v being that value and canonical; no panic, no overflow in the limb accumulation, and the raw "
+                   "8-byte reads of the full-limb fast path stay inside the slice (their bounds are proof obligations). Kani proves, per width, that every byte encoder emits exactly the base-256 digits in the stated order and length "
+                   "(fixed, vector, borrowed, trimmed, copy-into-buffer incl. frame), the same acceptance condition of the decoders (all strings up to BYTES+8 bytes), and the round trips",
+        level_note="encoders per width only (12 widths incl. 60, 63 and 72 where BYTES%8 and BITS%64 disagree): they are raw-pointer views of the limb array, outside Verus; normalisation N20 replaces the unaligned raw read "
+                   "`u64::from_le_bytes(unsafe { *bytes.as_ptr().add(off).cast() })` (and the from_be_bytes / `end.sub(..)` form) by a callee that REQUIRES the read to be in bounds and is ASSUMED to return the value of the eight bytes "
+                   "(Kani core_specs_raw_u64_reads: all offsets and contents of a 24-byte slice)",
+        technique="deductive contracts (Verus, all widths and lengths) on the slice decoders + Kani contract harnesses on the compiled crate (bit-precise for the unsafe pointer casts), complete per width, for encoders and round trips",
+        units=["core", "byteslice"],
         kani=dict(
             features=None,
-            quick=hs("c08", r"_w(0|1|7|60|63|64|65|72)$|_must_panic$", r"trim_be_vec_w(63|64|65|72)"),
-            thorough=hs("c08"),
+            quick=hs("c08", r"_w(0|1|7|60|63|64|65|72)$|_must_panic$", r"trim_be_vec_w(63|64|65|72)") + hs("core_specs", r"raw_u64_reads"),
+            thorough=hs("c08") + hs("core_specs", r"raw_u64_reads"),
             timeout_thorough=4000,
             bounds="widths 0,1,7,8,60,63,64,65,72,100,128,129; byte strings 0..BYTES+8; buffers 0..BYTES+3",
         ),
@@ -294,11 +298,11 @@ PROPS = {
         level_text="Kani proves per width, for ALL input byte strings of length 0..BYTES+4: each decoder (alloy-rlp, fastrlp 0.3/0.4, rlp crate decode/as_val, SCALE fixed and compact, SSZ, borsh, DER decode_value and the "
                    "TryFrom<IntRef/UintRef/AnyRef> forms, binary serde) terminates without panicking and returns Ok exactly for the inputs that denote a value < 2^BITS under the format (strict spec for the canonical-form decoders, "
                    "for which re-encoding the result reproduces the consumed bytes; lenient spec for the rlp crate and SCALE), the Ok value being canonical and the denoted one; an RLP list is rejected; the byte-slice parsers "
-                   "underneath are C08's, the string parsers C09's",
+                   "underneath (try_from_le_slice / try_from_be_slice) are proved total and exact by Verus for ALL widths and input lengths (unit byteslice, see C08), the digit-string parsers from_base_le / from_base_be likewise (unit frombase, see C09)",
         level_note="BOUNDED in input length (BYTES+4; longer inputs take the same length-check exits) and per width (7, 8, 16, 60, 64, 65); SCALE at 60-65 bits with concrete first bytes (all single-byte-mode prefixes; compact: modes 0-2 and the "
                    "4/8/16-byte big modes - the generic big-mode arm does not finish); postgres from_sql, serde human-readable, num-bigint not covered (cost); the third-party decoders are executed, not specified",
-        technique="Kani contract harnesses over all inputs up to a stated length per width (feature codecs)",
-        units=[],
+        technique="Kani contract harnesses over all inputs up to a stated length per width (feature codecs); deductive contracts (Verus, all widths and lengths) on the byte-slice and digit-string parsers underneath",
+        units=["core", "kernels", "basics", "byteslice", "frombase"],
         kani=dict(features="codecs", quick=hs("c17", None, r"_w(64|16)$|_p\d.*_w(7|8|60)$|_k\d.*_w(60|64)$") + hs("c09", r"str_non_ascii"), thorough=hs("c17") + hs("c09", r"str_non_ascii|c09_from_str"), timeout_quick=3000, timeout_thorough=7200,
                   bounds="all byte strings of length 0..BYTES+4; quick: 65 bits (all families) and 7/8/60 for the unpartitioned ones; thorough: + 16, 64 and every partition"),
         explanation="decode specs written from the format definitions; c17_spec_* prove they invert c16's encode specs",
@@ -329,7 +333,7 @@ PROPS = {
         level_note="the clause 'a Uint type with LIMBS != ceil(BITS/64) has no obtainable value' is a compile-time outcome (const-eval panic of Self::LIMBS) and cannot be expressed as a contract on a call: NOT decided "
                    "(the one hole found by reading, Uint::<64,2>::MAX, was repaired: fix 4621248); producers not swept: multi-limb division/modular/gcd/root/log results, rand generators; Ord/PartialOrd impls forward to the proved cmp (assumed forwarding)",
         technique="deductive contracts (Verus: wf as postcondition, cmp) + Kani canonical-closure sweep per width",
-        units=["core", "add", "kernels", "mul", "basics", "pow", "divw", "bits", "shifts", "conv_slice", "frombase"],
+        units=["core", "add", "kernels", "mul", "basics", "pow", "divw", "bits", "shifts", "conv_slice", "frombase", "byteslice"],
         kani=dict(features=None,
                   quick=hs("c04", r"_w(1|7|60|65)(_must_panic)?$", r"closure_(mul|pow|div|rem|checked_div|div_ceil|reduce_mod|add_mod)") + hs("c09", r"c09_from_(le|be)_w(8|65)_b(10|16|10p19)$"),
                   thorough=hs("c04") + hs("c09", r"c09_from_(le|be)_w(1|8|60|65)_"), timeout_thorough=5000,
@@ -350,7 +354,7 @@ PROPS = {
                    "iterator (the functions use `digits` only through the Iterator protocol), `for digit in iter.by_ref()` / `for digit in iter` are written as their definition `while let Some(d) = iter.next()`, "
                    "`for limb in &mut result.limbs` -> `.iter_mut()`, `#[verifier::truncate]` on `carry as u64`; vstd's specification of slice::Iter::next is trusted",
         technique="deductive contract (Verus, all widths/bases) for the digit step + Kani bounded contract harnesses for parsing",
-        units=["spigot", "fmt_consts", "frombase"],
+        units=["core", "basics", "kernels", "spigot", "fmt_consts", "frombase"],
         kani=dict(features=None, quick=hs("c09"), thorough=hs("c09"), bounds="see module header of kani/src/c09.rs"),
         explanation="invariant of Knuth's algorithm S over the reversed limb iterator: processed high limbs hold the quotient, remainder < base",
         trusted=COMMON_TRUST,
